@@ -25,6 +25,9 @@ SELECTIONS = [
     '', 'WHERE account ~ "Assets"', 'WHERE account ~ "Expenses|Income"', 'WHERE currency = "USD"', 'WHERE currency != "USD"',
     'WHERE year = 2020', 'WHERE flag = "*"', 'WHERE number > 0', 'WHERE account ~ "Broker"', 'FROM year >= 2020', 'FROM flag = "*" WHERE number < 0',
     'WHERE cost_number IS NOT NULL', 'WHERE account ~ "Nope"', 'FROM has_account("Broker")',
+    # selections over a period view (the same OPEN / CLOSE dates with and without CLEAR, so that they meet on one connection)
+    'FROM CLEAR WHERE account ~ "Income|Expenses"', 'FROM CLEAR', 'FROM OPEN ON 2020-01-01 CLOSE ON 2021-01-01 CLEAR', 'FROM OPEN ON 2020-01-01 CLOSE ON 2021-01-01',
+    'FROM CLOSE ON 2020-07-01 WHERE account ~ "Assets"', 'FROM CLOSE ON 2020-07-01 CLEAR WHERE account ~ "Income|Expenses|Equity"', 'FROM year >= 2019 CLEAR',
 ]
 GROUPINGS = ['account', 'currency', 'year', 'flag', 'root(account, 1)', 'account, currency']
 FUNCS = [('units', 'units({})'), ('cost', 'cost({})'), ('value', 'value({})'), ('convert_usd', 'convert({}, "USD")'),
